@@ -72,6 +72,8 @@ def main():
     if os.path.exists(out):
         for r in json.load(open(out)):
             old[(r["property"], r["name"])] = r
+    known = {(m[0], m[1]) for m in MUTANTS}
+    old = {k: v for k, v in old.items() if k in known}  # drop results of mutants no longer in the table
     for r in results:
         old[(r["property"], r["name"])] = r
         print(f"{r['property']} {r['name']:40s} {r['status']} {r.get('wall_s','')}s")
